@@ -192,11 +192,13 @@ namespace igris
         void erase(iterator first, iterator last)
         {
             size_t sz = last - first;
-            for (size_t i = 0; i < sz; ++i)
+            // close the gap by move-assigning onto live elements, then destroy
+            // the vacated tail
+            iterator new_end = std::move(last, end(), first);
+            for (iterator it = new_end; it != end(); ++it)
             {
-                igris::destructor(first + i);
+                igris::destructor(it);
             }
-            std::move(last, end(), first);
             m_size -= sz;
         }
 
